@@ -32,6 +32,15 @@ namespace xtl
         inline rv_pointer operator&() && { return rv_pointer(std::move(*this)); }
     };
 
+    // The wrapper is-a P: swap it the way P is swapped, so that a proxy's own
+    // swap (e.g. the one of a bitset reference) is not bypassed by std::swap.
+    template <class P>
+    inline void swap(xproxy_wrapper_impl<P>& lhs, xproxy_wrapper_impl<P>& rhs)
+    {
+        using std::swap;
+        swap(static_cast<P&>(lhs), static_cast<P&>(rhs));
+    }
+
     template <class P>
     using xproxy_wrapper = std::conditional_t<std::is_class<P>::value,
                                               xproxy_wrapper_impl<P>,
